@@ -497,3 +497,42 @@ func TestF16_PutAfterCloseLeavesNoTrace(t *testing.T) {
 		t.Errorf("a Put that failed after Close (%v) changed the directory:\n open:   %v\n closed: %v\n after:  %v", err, before, closed, after)
 	}
 }
+
+// F20 (C04): recovery may crash any number of times. Each attempt renamed the files the previous attempt
+// had already moved aside (x.bac -> x.bac.bac -> ...), so after enough crashed recoveries the names
+// exceeded the file system's limit and no Open succeeded any more.
+func TestF20_ManyCrashedRecoveries(t *testing.T) {
+	fsys := simfs.New()
+	o := opts(fsys, 4096, 1<<30, 0.5, false)
+	db := mustOpen(t, fsys, o)
+	for i := 0; i < 30; i++ {
+		if err := db.Put([]byte{byte(i)}, []byte("v")); err != nil {
+			t.Fatal(err)
+		}
+	}
+	if err := db.Close(); err != nil {
+		t.Fatal(err)
+	}
+	db = mustOpen(t, fsys, o)
+	if err := db.Put([]byte("last"), []byte("v")); err != nil {
+		t.Fatal(err)
+	}
+	fsys.Kill() // unclean: index.pmt, db.pmt, the segment's .pmt and the index files are in the directory
+	for i := 0; i < 70; i++ {
+		// the recovering Open dies after it has moved the non-segment files aside
+		fsys.ResetFailBudget(6)
+		if d, err := pogreb.Open("db", o); err == nil {
+			d.Close()
+			t.Fatalf("attempt %d: the failure budget did not stop the recovery", i)
+		}
+		fsys.ResetFailBudget(-1)
+		fsys.Kill()
+	}
+	db, err := pogreb.Open("db", o)
+	if err != nil {
+		t.Fatalf("after 70 crashed recoveries Open fails: %v", err)
+	}
+	if n := db.Count(); n != 31 {
+		t.Errorf("Count = %d, want 31", n)
+	}
+}
